@@ -5,25 +5,25 @@ VERIF = os.path.dirname(os.path.dirname(os.path.abspath(__file__)))
 sys.path.insert(0, os.path.join(VERIF, 'analysis'))
 
 TECH = {
- 'C01': 'typestate/provenance rules over MIR state graph: content writes only to private temp files; only rename/link create key-named entries',
- 'C02': 'path-order rules (must-precede / never-after / effect closure) on the MIR state graph of publish and maintenance code',
+ 'C01': 'typestate/provenance rules over the MIR state graph: content writes only to private temp files, each written by one writer from a rewound source; only rename/link create key-named entries; the name validator returns its argument unchanged (no aliasing of keys)',
+ 'C02': 'path-order rules (must-precede / never-after / must-follow / effect closure) on the MIR state graph of publish and maintenance code, incl. that the temp-file sweep continues past per-entry failures',
  'C03': 'must-precede dataflow on the MIR state graph specialised to auto_sync=true: sync:Ok before write-side insert, chmod before publish',
  'C04': 'effect-set rules and returned-handle provenance on the MIR state graph of the cache-directory get/set/put; must-follow re-read rule on the stacked miss path',
  'C05': 'error-discipline rules per race-exposed call site on the MIR state graph (absent => benign continuation)',
  'C06': 'who-may-call over the resolved call graph, recursion check, CFG loop inventory, publish-attempt count on the MIR state graph',
- 'C07': 'provenance rules on listing->plan->apply glue (capacity, rank/accessed predicates, directories filtered, evict/move-back wiring)',
+ 'C07': 'provenance rules on listing->plan->apply glue (capacity, rank/accessed predicates of the pushed candidates, directories filtered, evict/move-back wiring) and on the lookup re-touch that sets the read mark',
  'C09': 'effect closure of lookups/touches, argument-role checks of utimens calls, predicate implication over orderings, object-typed effect rule on the destination name in put',
  'C10': 'must-precede rule: trigger consulted and maintenance run before first publish; must-follow rule: a fired consultation is followed by a directory scan in every public operation; period expression check',
- 'C11': 'must-follow rule for source removal; probe-before-choose and second-probe rules on sharded entry points',
+ 'C11': 'must-follow rule for source removal; probe-before-choose and second-probe rules on sharded entry points; effect-set rules: set publishes only by rename, promotion only by put',
  'C12': 'constant comparison against independently derived SHA-256 values; canonical-polynomial normalisation of the mixer arithmetic; path enumeration of the fix-up',
  'C13': 'configuration-matrix specialisation of the stacked cache state graph (hit kind x action x write side) with required/forbidden effect sets',
  'C14': 'path rules on checker call sites: verdicts never dropped, scan never returns early with a checker, populate comparison',
  'C15': 'effect closure over the resolved call graph from the read-side trait; receiver provenance of write-side calls; provenance of read-side handles into mutating primitives and link sources',
  'C16': 'dominance of validator-Ok over mutating primitives on name-derived paths; validator decision table; path-kind typing',
  'C17': 'who-may-call (no directory removal), dominance of candidate filters over the candidate push, age-gate constant and direction',
- 'C18': 'result-discipline inventory over every fallible call site; Ok-exit implies publish-Ok; no keep/persist/forget; panic inventory',
- 'C19': 'rewind typestate on returned handles over the configuration matrix; read-only open provenance; mode constants',
- 'C20': 'effect/loop rules for entry-count independence, open-attempt counts, descriptor-holding field inventory, live descriptor peak',
+ 'C18': 'result-discipline inventory over every fallible call site; Ok-exit implies publish-Ok, source consumed and a stamped read-only file; no keep/persist/forget; panic inventory',
+ 'C19': 'rewind typestate on returned handles (duplicates share the offset) over the configuration matrix and in the lower-layer lookups; read-only open provenance; mode constants',
+ 'C20': 'effect/loop rules for entry-count independence, open-attempt counts, descriptor-holding field and collection inventory, live descriptor peak, who-may-call for locks and lock files',
 }
 LEVEL_TEXT = ('Static analysis over the type-checked program: rule instances (one per entry point / call site / configuration) are decided on '
               'rustc MIR extracted from /repo on every run -- resolved call graph, CFG loop inventory and a path-sensitive abstract '
